@@ -3,9 +3,11 @@ attribute value change, respects the public frontier, skips unresolvable or cycl
 exits non-zero exactly when something is reported.
 
 Domain: two-version histories = (generated package model, edit script of 1-4 catalogue edits applied at locations of
-the ORIGINAL model).  Packages: `pk` with public / private modules and sub-packages, `__all__` in some modules,
-re-exports (also chains) from private modules, module aliases, classes with (private / imported) bases, unresolvable
-(external module, dynamic name) and cyclic (name cycles, module-alias cycles) re-exports in public positions.
+the ORIGINAL model).  Packages: `pk` with public / private modules and sub-packages, `__all__` in some modules
+(list / tuple / built with `+=` / declared EMPTY as `[]`, `()` or assembled from another module's empty `__all__`),
+re-exports (also chains) from private modules, wildcard re-exports (`from m import *` in modules that declare `__all__`),
+module aliases, classes with (private / imported) bases and nested classes, unresolvable (external module, dynamic
+name) and cyclic (name cycles, module-alias cycles) re-exports in public positions.
 Oracle: the public-frontier reference model of vp/gen/c11_model.py, computed from the generator's model with the
 documented is_public decision table — never from Griffe's output.
 
@@ -43,8 +45,8 @@ from vp.gen import c11_model as M
 ID = "C11"
 LEVEL = "exploration"
 RULE = (
-    "Hypothesis-generated histories: package model (2-7 modules, __all__, re-export chains, module aliases, private bases, "
-    "unresolvable/cyclic public re-exports) + edit script of 1-4 catalogue edits placed at locations of the original model "
+    "Hypothesis-generated histories: package model (2-7 modules, __all__ incl. empty / += / assembled forms, re-export chains, "
+    "wildcard re-exports, module aliases, private bases, nested classes, unresolvable/cyclic public re-exports) + edit script of 1-4 catalogue edits placed at locations of the original model "
     "(location class direct / reexport / inherit / dead / gray chosen by construction). non-trivial = the script has an "
     "expectation-bearing incompatible edit on an object that is public only through a re-export, alias or inheritance, or it "
     "mixes compatible and incompatible edits; distinct = distinct (package model, script)"
@@ -58,7 +60,12 @@ ASSUMPTIONS = [
     "base elsewhere are never removed / re-kinded; un-exporting a name that stays defined is not generated (not a removal)",
     "both versions are loaded statically with the options griffe.check uses (resolve_aliases=True, resolve_external=None, allow_inspection=False)",
     "CLI clause: git 2.39 from PATH with GIT_CONFIG_GLOBAL/SYSTEM=/dev/null; check() is called in-process with cwd = repository",
-    "names are unique per scope, member names never collide with sub-module names, empty __all__ is not generated",
+    "names are unique per scope, member names never collide with sub-module names",
+    "an empty __all__ is a declared __all__ (docs + is_public docstring, /repo 7432fdb): every non-module member below it is private "
+    "under both readings; edits to them are unobservable and no breakage may name them; names are never added to an empty __all__",
+    "wildcard imports are generated only in modules that declare __all__ (publicness of the provided names = listed or not; without "
+    "__all__ the code comment and the docs disagree), only from modules later in the module order (acyclic) and never when a "
+    "provided name collides with a bound name; provided names follow is_wildcard_exposed (source __all__, else no leading underscore, no sub-modules)",
 ]
 BUDGET_S = {"quick": 75.0, "thorough": 1150.0}
 SHRINK_MAX_EXAMPLES = 4000
@@ -83,10 +90,10 @@ def _strategies():
 
     func = st.fixed_dictionaries({"k": st.just("func"), "name": small, "sig": small, "doc": st.integers(0, 2)}, optional={"exp": st.booleans()})
     attr = st.fixed_dictionaries({"k": st.just("attr"), "name": small, "val": st.integers(0, 3)}, optional={"exp": st.booleans()})
-    cmem = st.one_of(
-        st.fixed_dictionaries({"k": st.just("meth"), "name": small, "sig": small, "doc": st.integers(0, 1)}),
-        st.fixed_dictionaries({"k": st.just("cattr"), "name": small, "val": st.integers(0, 3)}),
-    )
+    meth = st.fixed_dictionaries({"k": st.just("meth"), "name": small, "sig": small, "doc": st.integers(0, 1)})
+    cattr = st.fixed_dictionaries({"k": st.just("cattr"), "name": small, "val": st.integers(0, 3)})
+    ncls = st.fixed_dictionaries({"k": st.just("ncls"), "name": st.integers(0, 1), "body": st.lists(st.one_of(meth, cattr), min_size=1, max_size=3)})
+    cmem = weighted((meth, 3), (cattr, 3), (ncls, 1))
     cls = st.fixed_dictionaries(
         {
             "k": st.just("cls"),
@@ -109,14 +116,27 @@ def _strategies():
             "rel": st.sampled_from([False, False, True]),
         }
     )
+    star = st.fixed_dictionaries({"k": st.just("star"), "mod": small})
     allspec = weighted(
-        (st.none(), 1),
-        (st.fixed_dictionaries({"bits": st.integers(0, 0xFFFF), "subs": st.sampled_from(["public"] * 6 + ["all", "none"])}), 2),
+        (st.none(), 2),
+        (
+            st.fixed_dictionaries(
+                {
+                    "bits": st.integers(0, 0xFFFF),
+                    "subs": st.sampled_from(["public"] * 6 + ["all", "none"]),
+                    "form": st.sampled_from(["list", "list", "list", "tuple", "aug"]),  # [..] / (..) / [..] then += [..]
+                    "stars": st.sampled_from([True, True, True, False]),  # list the names wildcard imports provide
+                }
+            ),
+            4,
+        ),
+        # declared but empty: literal [] / (), [] then += [], or assembled from another module's empty __all__
+        (st.fixed_dictionaries({"empty": st.sampled_from(["list", "tuple", "aug", "from"]), "src": small}), 1),
     )
     modname = st.sampled_from([0, 1, 2, 3, 4, 4, 5, 5])  # private module names twice as likely
     # implementation modules are definition heavy, the root (and "facade" modules) import heavy
-    member_def = weighted((func, 1), (attr, 1), (cls, 3), (imp, 1))
-    member_imp = weighted((func, 1), (attr, 1), (cls, 1), (imp, 4))
+    member_def = weighted((func, 2), (attr, 2), (cls, 6), (imp, 2), (star, 1))
+    member_imp = weighted((func, 1), (attr, 1), (cls, 1), (imp, 4), (star, 1))
     impl_module = st.fixed_dictionaries(
         {"name": modname, "parent": small, "all": allspec, "body": st.lists(member_def, min_size=2, max_size=6), "doc": st.integers(0, 1)}
     )
@@ -132,7 +152,13 @@ def _strategies():
         {"op": st.sampled_from(["remove", "remove", "rekind", "rekind", "chvalue", "rmbase"]), "at": at, "where": inc_where, "arg": small}
     )
     dead = st.fixed_dictionaries(
-        {"op": st.sampled_from(["remove", "rekind", "chvalue", "rmbase", "chsig", "chsig"]), "at": at, "where": st.just("dead"), "arg": small}
+        {
+            "op": st.sampled_from(["remove", "rekind", "chvalue", "rmbase", "chsig", "chsig"]),
+            "at": at,
+            "where": st.just("dead"),
+            "arg": small,
+            "hidden": st.sampled_from([True, True, False]),  # prefer public-looking objects below an empty __all__
+        }
     )
     compat = st.fixed_dictionaries(
         {
@@ -305,6 +331,22 @@ def analyse(case: dict) -> dict:
         classes.append("pkg:reexported-public-object")
     if any(m["all"] is not None for m in old_model["mods"].values()):
         classes.append("pkg:has-__all__")
+    empties = {p for p, m in old_model["mods"].items() if m["all"] == []}
+    if empties:
+        classes.append("pkg:empty-__all__")
+        if any(p in ed.maybe.tags for p in empties):
+            classes.append("pkg:empty-__all__:module-public")
+        for p in empties:
+            if old_model["mods"][p].get("all_form") == "from":
+                classes.append("pkg:empty-__all__:assembled")
+                break
+    for r in applied:
+        if r["op"] != "identity" and r["loc"] == "dead" and opkg.module_of(r["ent"]) in empties and not M.is_private_name(r["ent"].rsplit(".", 1)[1]):
+            classes.append(f"edit-below-empty-__all__:{r['op']}")
+    if any(n.get("virtual") for p_, (k_, n, _x) in opkg.ent.items() if k_ == "imp" and p_ in ed.maybe.tags):
+        classes.append("pkg:public-wildcard-reexport")
+    if any(k_ == "cls" and opkg.ent[par][0] == "cls" for _p, (k_, _n, par) in opkg.ent.items() if par):
+        classes.append("pkg:nested-class")
     del statuses
     n_inc = sum(1 for r in applied if not compatible(r))
     n_comp = len(applied) - n_inc
